@@ -11,6 +11,7 @@ S->I: behaviours exported by TLC (exhaustive small scope, simulated long ones ov
       behaviour ends with a restart and - if its last step wrote - a crash at EVERY byte of that
       write, each followed by a full re-read through a fresh storage."""
 import json
+import os
 import random
 from vlib import Infra
 
@@ -54,10 +55,7 @@ def pick(behs, rnd, limit, want=None):
     return long + writes[: limit - len(long)]
 
 
-def run(ctx):
-    th = ctx.thorough
-    rnd = random.Random(ctx.seed)
-    # 1. the design: exhaustive model checking
+def model_check(ctx, th):
     mc = ctx.tlc("DiskCacheMC", "DiskCache_mc_big.cfg" if th else "DiskCache_mc.cfg",
                  timeout=3000 if th else 900, coverage=th,
                  constants=dict(CONSTS, RotateSize=45, Shards=2, Lens=[0, 3], TearKs="0..23", MaxOps=6 if th else 5))
@@ -73,6 +71,15 @@ def run(ctx):
     if bad.violated not in ("invariant:RereadExact", "invariant:TailOrder"):
         raise Infra("vacuity check failed: the specification of the unrepaired reader satisfies the property (%s)" % bad.violated)
     ctx.ev.set("defect_model_violates", bad.violated)
+
+
+def run(ctx):
+    th = ctx.thorough
+    rnd = random.Random(ctx.seed)
+    # 1. the design: exhaustive model checking (does not depend on the repository: skipped when
+    #    tools/selftest runs the check against a mutated copy)
+    if not os.environ.get("VERIF_SELFTEST"):
+        model_check(ctx, th)
     # 3. behaviours for the driver
     beh = ctx.tlc("DiskCacheMC", "DiskCache_beh_big.cfg" if th else "DiskCache_beh.cfg",
                   timeout=2400 if th else 900, name="behaviour export (2 shards)")
@@ -102,7 +109,7 @@ def run(ctx):
     ctx.require_model_ok(rot, "rotation export")
     def rotates(b):
         return sum(1 for s in b if s["a"] == "Put") >= 3
-    big = pick(rot.behaviours, rnd, 40 if th else 5, want=rotates)
+    big = pick(rot.behaviours, rnd, 40 if th else 4, want=rotates)
     if not big:
         raise Infra("no rotating behaviour exported")
     replay(ctx, big, "real_rotation_threshold", env={"VERIF_C09_BIG": 1, "VERIF_C09_WORKERS": 2})
